@@ -93,6 +93,22 @@ def check(run):
               'u32le': [st_le.Dwarf_dw_form['DW_FORM_block4']], 'u32be': [st_be.Dwarf_dw_form['DW_FORM_block4']],
               'uleb': [st_le.Dwarf_dw_form['DW_FORM_block'], st_be.Dwarf_dw_form['DW_FORM_exprloc']]}
 
+    # the library's own block reader behind a length (how DW_OP_implicit_value / entry_value / typed constants read their payload):
+    # same expectations as the prefixed arrays of bytes; a tree without read_blob is not judged
+    try:
+        from elftools.common.utils import read_blob, struct_parse as _sp
+
+        class _Blob:
+            def __init__(self, lenprim):
+                self.lenprim = lenprim
+
+            def parse_stream(self, st):
+                return list(read_blob(st, _sp(self.lenprim, st)))
+        blocks['u8'].append(_Blob(ULInt8('')))
+        blocks['uleb'].append(_Blob(uleb))
+    except ImportError:
+        run.notes.append('read_blob not present in this tree: block reader not judged')
+
     run.rule = ('cases = reachable states of spec/Prim.tla (one input byte string each; every prefix is a state too); '
                 'non-trivial = the spec expects a successful decode of at least one primitive on that input; '
                 'distinct by (kind, input bytes)')
